@@ -33,6 +33,7 @@ J c12_to_json(const C12Case& c) {
   j.set("eio_at", c.eio_at); j.set("short_at", c.short_at); j.set("skip_mode", c.skip_mode);
   j.set("bystander", c.bystander); j.set("preload", c.preload); j.set("heap_budget_mib", c.heap_budget_mib);
   j.set("sched_seed", static_cast<int64_t>(c.sched_seed));
+  if (c.via_file) { j.set("via_file", true); j.set("file_chunk", c.file_chunk); }
   j.set("explicit_schedule", c.explicit_schedule);
   J s = J::arr();
   for (int v : c.schedule) s.push(v);
@@ -57,6 +58,7 @@ bool c12_from_json(const J& j, C12Case* c) {
   c->eio_at = j.geti("eio_at", -1); c->short_at = j.geti("short_at", -1); c->skip_mode = static_cast<int>(j.geti("skip_mode"));
   c->bystander = j.getb("bystander"); c->preload = static_cast<int>(j.geti("preload")); c->heap_budget_mib = static_cast<int>(j.geti("heap_budget_mib", 8));
   c->sched_seed = static_cast<uint64_t>(j.geti("sched_seed", 1));
+  c->via_file = j.getb("via_file"); c->file_chunk = static_cast<int>(j.geti("file_chunk", 4096));
   c->explicit_schedule = j.getb("explicit_schedule");
   c->schedule.clear();
   for (const J& v : j.at("schedule").a) c->schedule.push_back(static_cast<int>(v.i));
@@ -343,6 +345,11 @@ C12Case gen_c12(const std::string& part, const std::string& tier, uint64_t seed,
   c.bystander = wl.chance(0.1);
   if (wl.chance(0.1)) c.preload = static_cast<int>(wl.range(1, 3));
   c.heap_budget_mib = wl.chance(0.2) ? 64 : 8;
+  // The outcome is a function of the bytes alone - so it is also the same when the built-in file source delivers them.
+  if (c.eio_at < 0 && c.short_at < 0 && c.skip_mode != 1 && wl.chance(0.35)) {
+    c.via_file = true;
+    c.file_chunk = static_cast<int>(wl.pick(std::vector<int>{1, 7, 64, 1000, 1024, 4096, 4096, 65536}));
+  }
   return c;
 }
 
@@ -456,6 +463,8 @@ Outcome exec_c12(const C12Case& c, bool keep_log, Stats* stats) {
     e.kind = CatEntry::BYTES; e.bytes = bytes; e.eio_at = c.eio_at; e.short_at = c.short_at; e.skip_mode = c.skip_mode;
   }
   { CatEntry& e = cat[nb]; e.kind = CatEntry::BYTES; e.bytes = shipped_bytes("America/New_York"); }
+  const std::string nf = "sim/" + salt + "/F";
+  if (c.via_file) cat[nf].kind = CatEntry::FALLTHROUGH;
   const std::string nd = "sim/" + salt + "/decoy";
   {
     CatEntry& e = cat[nd];
@@ -478,6 +487,7 @@ Outcome exec_c12(const C12Case& c, bool keep_log, Stats* stats) {
   for (int i = 0; i < c.preload; ++i) { CatEntry& e = cat["sim/" + salt + "/pre" + std::to_string(i)]; e.kind = CatEntry::BYTES; e.bytes = shipped_bytes(i % 2 ? "Europe/London" : "Asia/Tokyo"); }
   env_reset(); fs_reset();
   env.active = true; fs.active = true;
+  if (c.via_file) { FsNode& n = fs.nodes["/usr/share/zoneinfo/" + nf]; n.kind = FsNode::REG; n.bytes = bytes; fs.chunk = static_cast<size_t>(c.file_chunk > 0 ? c.file_chunk : 4096); }
   factory_reset(&cat, c.bystander ? 2 : 1);
   fac.factory_yields = 0;
   fac.read_call_cap = 4 * static_cast<int64_t>(bytes.size()) + 4096;
@@ -487,7 +497,7 @@ Outcome exec_c12(const C12Case& c, bool keep_log, Stats* stats) {
   auto ev = [&](const std::string& s) { std::string line = strip_salt(s, salt); log_hash = hash_str(line, log_hash); if (keep_log) log.push_back(line); };
   const std::vector<Query> panel = build_panel(bytes);
   const cctz::time_zone utc = cctz::utc_time_zone();
-  Attempt att[2];
+  Attempt att[3];
   int64_t peak_request = 0;
 
   auto attempt = [&](const std::string& name, Attempt* a, int which) {
@@ -516,7 +526,7 @@ Outcome exec_c12(const C12Case& c, bool keep_log, Stats* stats) {
       // answer must be a function of the bytes and the question alone, not of what was asked before.
       a->ans.assign(panel.size(), 0);
       for (size_t step = 0; step < panel.size(); ++step) {
-        const size_t qi = which == 0 ? step : panel.size() - 1 - step;
+        const size_t qi = which != 1 ? step : panel.size() - 1 - step;
         const Query& q = panel[qi];
         std::string r = run_query(tz, q);
         uint64_t h = hash_str(r, mix64(0x51, q.k));
@@ -580,6 +590,7 @@ Outcome exec_c12(const C12Case& c, bool keep_log, Stats* stats) {
     paint_stack(kFill[f2]); perturb_heap(0xff ^ kFill[f2]);
     errno = kErrno[(f1 % 8 + 1 + (c.sched_seed / 144) % 7) % 8];
     attempt(n2, &att[1], 1);
+    if (c.via_file) { NoYield ny; attempt(nf, &att[2], 2); }
     perturb_heap(0);
   });
   if (c.bystander) bodies.push_back([&] {
@@ -616,6 +627,16 @@ Outcome exec_c12(const C12Case& c, bool keep_log, Stats* stats) {
            (qi < panel.size() ? query_text(panel[qi]) : std::string("?")) + ": " + hex64(att[0].digest) + " vs " + hex64(att[1].digest));
     }
   }
+  if (c.via_file && !att[0].skipped && !att[2].skipped) {
+    if (!att[2].fallback_problem.empty()) viol("c12:fallback", att[2].fallback_problem, "load through the built-in file source");
+    if (att[0].ok != att[2].ok) viol("c12:nondeterminism(source)", "the same bytes load through one ZoneInfoSource and are rejected through another",
+                                     std::string("custom source: ") + (att[0].ok ? "true" : "false") + ", built-in file source (reads of up to " + std::to_string(c.file_chunk) + " bytes): " + (att[2].ok ? "true" : "false"));
+    else if (att[0].digest != att[2].digest) {
+      size_t qi = 0;
+      while (qi < panel.size() && qi < att[0].ans.size() && qi < att[2].ans.size() && att[0].ans[qi] == att[2].ans[qi]) ++qi;
+      viol("c12:nondeterminism(source)", "the same bytes answer differently when the built-in file source delivers them", qi < panel.size() ? query_text(panel[qi]) : std::string("?"));
+    }
+  }
   for (const UbReport& u : rt.ub) {
     std::string fn = symbolize_fn(u.pc);
     size_t sl = u.file.rfind('/');
@@ -649,6 +670,7 @@ Outcome exec_c12(const C12Case& c, bool keep_log, Stats* stats) {
     for (auto& kv : rt.probes) stats->add("probe." + kv.first, kv.second);
     for (const std::string& t : tags) stats->add("probe.tag:" + t);
     if (c.bystander) stats->add("probe.bystander");
+    if (c.via_file && !att[2].skipped) stats->add(att[2].ok ? "probe.file_source_load_accepted" : "probe.file_source_load_rejected");
     stats->add("base." + c.base.substr(0, c.base.find(':')));
   }
   rt.faults_fired.clear(); rt.probes.clear();
